@@ -174,6 +174,8 @@ def run(chk, facts, tier, only=None):
         chk.include(c10, "C10.R6", "C04.R8", facts)     # variant payloads: the accessor follows the expected payload type, so null at opt T decodes
         import c02
         chk.include(c02, "C02.R4", "C04.R9", facts)     # header validation incl. replace_empty: only vacuous records become `empty`; check_subtype accepts only through the check
+        import c03
+        chk.include(c03, "C03.R2", "C04.R10", facts)    # "encoded at t": the encoder's type table is one the decoder can read (indices signed, primitives never tabled)
     if not only or only == "C04.R1":
         chk.run_rule("C04.R1", "checker rule table and decoder acceptance table agree in both directions",
                      lambda: rule_tables(chk, facts))
